@@ -191,8 +191,8 @@ theorem spec_maildirMove {cs : List Bytes} (env : PEnv) (src dst : Maildir) (ms 
         subst ha1
         simp only [Bool.false_eq_true, if_false]
         refine wp_mono (wp_harmless_all (P := fun r => r.1.msg = a2.msg) ?_ ?_ hgoodA) ?_
-        · repeat' (first | exact harmless_messageSetFile _ _ _ _ | harmless_step)
-        · repeat' (first | exact rfl | exact all_messageSetFile _ _ _ _ | all_step)
+        · repeat' (first | exact harmless_messageSetFileMoved _ _ _ _ _ | harmless_step)
+        · repeat' (first | exact rfl | exact all_messageSetFileMoved _ _ _ _ _ | all_step)
         · intro r w'' h; exact ⟨h.1, h.2.trans ha2⟩
   · -- the rename succeeded
     rw [he]
@@ -202,7 +202,7 @@ theorem spec_maildirMove {cs : List Bytes} (env : PEnv) (src dst : Maildir) (ms 
     refine ⟨hgood2, ?_⟩
     simp only [ret_bind, Bool.false_eq_true, if_false]
     refine wp_harmless_all ?_ ?_ hgood2
-    · repeat' (first | exact harmless_messageSetFile _ _ _ _ | harmless_step)
-    · repeat' (first | exact rfl | exact All.mono (all_messageSetFile _ _ _ _) (fun _ h => h) | all_step)
+    · repeat' (first | exact harmless_messageSetFileMoved _ _ _ _ _ | harmless_step)
+    · repeat' (first | exact rfl | exact All.mono (all_messageSetFileMoved _ _ _ _ _) (fun _ h => h) | all_step)
 
 end Mdsort.Proofs.World
